@@ -6,6 +6,7 @@ series has an observation in its first and in its last row.  Every public operat
 transform the WHOLE view as the property states (so that any sequence of operations is covered by induction
 on the sequence), to re-establish RI where the property promises it, and to respect its frame.
 Rows are symbolic (unbounded); the number of variants is enumerated (1, 2)."""
+import fractions
 import operator
 import numpy as np
 from pyvc.prove import contract
@@ -1111,3 +1112,136 @@ def get_values_returns_every_variant(K, nv, unpack):
         K.ensure(f"variant {c}: one value per requested period", len(vals) == 2)
         for i, v in enumerate(vals[:2]):
             K.ensure(f"variant {c}, period {i}", K.cell_eq(v if K.is_cell(v) else K.real_cell(v), V(K, xs, xd, ds[i], c)))
+
+
+# ------------------------------------------------------------------------------ fill_missing: one column, every missing-value pattern
+import itertools as _itertools
+from irispie.series import _filling as FILL
+
+_PATTERNS = [p for p in _itertools.product((False, True), repeat=4)]       # True: missing
+
+
+def _spec_fill(K, method, pattern, vals, i):
+    """Documented value of position i after filling (None: stays missing)."""
+    obs = [j for j, miss in enumerate(pattern) if not miss]
+    if not pattern[i]:
+        return vals[i]
+    if not obs:
+        return 7 if method == "constant" else None
+    if method == "constant":
+        return 7
+    prev = max((j for j in obs if j < i), default=None)
+    nxt = min((j for j in obs if j > i), default=None)
+    if method == "previous":
+        return vals[prev] if prev is not None else None
+    if method == "next":
+        return vals[nxt] if nxt is not None else None
+    if method == "nearest":
+        cand = [j for j in (prev, nxt) if j is not None]
+        return vals[min(cand, key=lambda j: (abs(j - i), j))]
+    if prev is not None and nxt is not None:                      # linear
+        return vals[prev] + (vals[nxt] - vals[prev]) * K.frac(fractions.Fraction(i - prev, nxt - prev))
+    return vals[prev if prev is not None else nxt]
+
+
+@contract("C10", targets=["irispie.series._filling:_fill_neighbor", "irispie.series._filling:_fill_interp", "irispie.series._filling:_fill_constant",
+                          "irispie.series._filling:_next_index", "irispie.series._filling:_previous_index", "irispie.series._filling:_nearest_index",
+                          "irispie.series._filling:_interpolation_linear", "irispie.series._filling:_FILL_METHOD_DISPATCH"],
+          instances=[(m, p) for m in ("previous", "next", "nearest", "linear", "constant") for p in _PATTERNS], cross=3, opts={"max_paths": 2000})
+def filling_one_column(K, method, pattern):
+    """The column-level fillers behind fill_missing, for EVERY pattern of missing values in four periods and arbitrary
+    observed values: an observed period keeps its value; a missing period takes the previous / next / nearest observation
+    (the earlier one at equal distance), the value on the straight line between its neighbours (the single neighbour's
+    value at the ends), or the constant; where the method has no source the period stays missing."""
+    vals = [K.real(f"v{j}") for j in range(4)]
+    data = K.array_cells([K.nan_cell() if miss else K.real_cell(v) for miss, v in zip(pattern, vals)])
+    out = K.call(FILL._FILL_METHOD_DISPATCH[method], data, 7 if method == "constant" else None)
+    K.ensure("four periods in, four periods out", K.shape(out) == (4,))
+    for i in range(4):
+        want = _spec_fill(K, method, pattern, vals, i)
+        got = K.cell(out, i)
+        if want is None:
+            K.ensure(f"period {i} stays missing", K.cell_is_nan(got))
+        else:
+            K.ensure(f"period {i}", K.And(K.Not(K.cell_is_nan(got)), K.real_eq(K.cell_val(got), want)))
+
+
+@contract("C10", targets=["irispie.series._filling:Inlay.fill_missing", "irispie.series._filling:fill_missing", P + "Series.get_data_and_periods",
+                          P + "Series.set_data"],
+          instances=[(m, p, nv) for m in ("previous", "linear", "constant") for p in _PATTERNS if not p[0] and not p[3] and any(p) for nv in NV],
+          cross=3, opts={"max_paths": 3000})
+def fill_missing_fills_every_variant_period_by_period(K, method, pattern, nv):
+    """fill_missing on a series: each variant is filled on its own (variant 0 has the missing pattern, a second variant is
+    fully observed and must come back unchanged), period by period as the column-level contract says; the functional
+    form returns a new series and leaves its input alone."""
+    cls = CLS[0]
+    lo, hi = ser(K, cls)
+    start = K.int("x_start", lo, hi)
+    vals = [K.real(f"v{j}") for j in range(4)]
+    other = [K.real(f"w{j}") for j in range(4)]
+    rows = [[K.nan_cell() if miss else K.real_cell(v)] + ([K.real_cell(w)] if nv == 2 else []) for miss, v, w in zip(pattern, vals, other)]
+    data = K.array_cells(rows)
+    x = K.obj(Series, start=K.obj(cls, serial=start), data=data, data_type=np.float64, metadata={}, __description__="")
+    old = K.snapshot(data)
+    r = K.call(FILL.fill_missing, x, method, 7) if method == "constant" else K.call(FILL.fill_missing, x, method)
+    rs, rd = state(K, r)
+    K.ensure("same span and variants", K.And(rs == start, K.shape(rd)[0] == 4, K.shape(rd)[1] == nv))
+    for i in range(4):
+        want = _spec_fill(K, method, pattern, vals, i)
+        got = K.cell(rd, i, 0)
+        K.ensure(f"variant 0, period {i}", K.And(K.Not(K.cell_is_nan(got)), K.real_eq(K.cell_val(got), want)))
+        if nv == 2:
+            K.ensure(f"variant 1, period {i}: nothing to fill, nothing changed", K.cell_eq(K.cell(rd, i, 1), K.real_cell(other[i])))
+    xs2, xd2 = state(K, x)
+    K.ensure("the input is left alone", K.And(xs2 == start, *[K.cell_eq(K.cell(xd2, i, c), K.cell(old, i, c)) for i in range(4) for c in range(nv)]))
+    K.ensure("the result has its own memory", (r is not x) and (not K.same_buffer(rd, xd2)))
+
+
+# ------------------------------------------------------------------------------ autoregressive extrapolation
+from irispie.series import _extrapolate as XT
+
+
+@contract("C10", targets=["irispie.series._extrapolate:Inlay.extrapolate", "irispie.series._extrapolate:extrapolate", "irispie.series._extrapolate:_extrapolate_data",
+                          P + "Series.iter_own_data_variants_from_until", P + "Series.set_data"],
+          instances=[(order, nv, log) for order in (1, 2) for nv in NV for log in (False,)] + [(1, 1, True)], cross=3, opts={"max_paths": 4000})
+def extrapolation_follows_the_autoregression_period_by_period(K, order, nv, log):
+    """extrapolate(x, (rho_1..rho_p), span, intercept=c): in every period of the span, in order, x(t) = rho_1 x(t-1) + ... +
+    rho_p x(t-p) + c (in logs when log=True), each variant from its own history; periods outside the span keep their
+    values; the functional form leaves its input alone.  (The filter kernel of scipy is an assumed contract.)"""
+    cls = CLS[0]
+    rows = 3
+    T = 3
+    lo, hi = ser(K, cls)
+    start = K.int("x_start", lo, hi)
+    data = K.array("x_data", (rows, nv), nan=False)
+    if log:
+        K.assume(K.And(*[K.cell_val(K.cell(data, i, c)) > 0 for i in range(rows) for c in range(nv)]))
+    x = K.obj(Series, start=K.obj(cls, serial=start), data=data, data_type=np.float64, metadata={}, __description__="")
+    old = K.snapshot(data)
+    rho = [K.real(f"rho{j}") for j in range(order)]
+    c0 = K.real("c")
+    first = start + rows                         # the span starts right after the last observation
+    span = K.call(D.Span, K.obj(cls, serial=first), K.obj(cls, serial=first + T - 1))
+    r = K.call(XT.extrapolate, x, tuple(rho), span, intercept=c0, log=log)
+    rs, rd = state(K, r)
+    K.ensure("span of the result", K.And(rs == start, K.shape(rd)[0] == rows + T, K.shape(rd)[1] == nv))
+    for c in range(nv):
+        path = [K.cell_val(K.cell(old, i, c)) for i in range(rows)]
+        if log:
+            path = [K.log(v) for v in path]
+        for t in range(T):
+            nxt = c0
+            for j in range(order):
+                nxt = nxt + rho[j] * path[-1 - j]
+            path.append(nxt)
+            got = K.cell(rd, rows + t, c)
+            if log:
+                K.ensure(f"variant {c}, period +{t + 1}: positive, and its log follows the recursion",
+                         K.And(K.Not(K.cell_is_nan(got)), K.cell_val(got) > 0, K.real_eq(K.log(K.cell_val(got)), nxt)))
+            else:
+                K.ensure(f"variant {c}, period +{t + 1} follows the recursion", K.And(K.Not(K.cell_is_nan(got)), K.real_eq(K.cell_val(got), nxt)))
+        for i in range(rows):
+            K.ensure(f"variant {c}, observation {i} kept", K.cell_eq(K.cell(rd, i, c), K.cell(old, i, c)))
+    xs2, xd2 = state(K, x)
+    K.ensure("the input is left alone", K.And(xs2 == start, K.shape(xd2)[0] == rows, *[K.cell_eq(K.cell(xd2, i, c), K.cell(old, i, c)) for i in range(rows) for c in range(nv)]))
+    K.ensure("the result has its own memory", (r is not x) and (not K.same_buffer(rd, xd2)))
